@@ -188,6 +188,7 @@ def registry_table():
     from esrally.driver import runner
 
     runner.register_default_runners()
+    _REGISTERED.append(True)
     table = {}
     for ot in track.OperationType:
         name = ot.to_hyphenated_string()
@@ -253,9 +254,14 @@ def _us(x):
     return int(round(x * US))
 
 
-def execute(case):
+_REGISTERED = []
+
+
+def execute(case, shared=None):
     """case: {src, ctor_until, params {track-level names}, script [[o, dur_seconds, variant], ...], op (optional registry op)}.
 
+    shared: None, or a dict that carries the parameter object and the Retry instance from one invocation of a task to the next
+    (the load generator hands the SAME dict - ParamSource.params() - to every invocation of a task and keeps one runner object).
     Returns the item for TraceRetry.tla."""
     from esrally.driver import runner
 
@@ -293,9 +299,16 @@ def execute(case):
             return "scripted-delegate"
 
     delegate = Delegate()
-    params = dict(case["params"])
+    if shared is None:
+        params = dict(case["params"])
+    else:
+        params = shared.setdefault("params", dict(case["params"]))
+    retry_before = {k: params[k] for k in PARAM_KEYS.values() if k in params}
     op = case.get("op")
     if op:
+        if not _REGISTERED:
+            runner.register_default_runners()
+            _REGISTERED.append(True)
         chain = runner.runner_for(op)
         rt = _find_retry(chain)
         if rt is None:
@@ -303,10 +316,17 @@ def execute(case):
         saved = rt.delegate
         rt.delegate = delegate
         target, es = chain, {"default": None}
+    elif shared is not None and shared.get("rt") is not None:
+        rt = shared["rt"]
+        saved = rt.delegate
+        rt.delegate = delegate
+        target, es = rt, None
     else:
         rt = runner.Retry(delegate, retry_until_success=case["ctor_until"])
         saved = None
         target, es = rt, None
+        if shared is not None:
+            shared["rt"] = rt
 
     async def go():
         try:
@@ -322,6 +342,8 @@ def execute(case):
         if saved is not None:
             rt.delegate = saved
     t_end = lp.time()
+    retry_after = {k: params[k] for k in PARAM_KEYS.values() if k in params}
+    untouched = retry_after == retry_before and all(type(retry_after[k]) is type(retry_before[k]) for k in retry_after)
     of, same = -1, False
     if kind == "returned":
         if not calls and res is None:
@@ -339,7 +361,9 @@ def execute(case):
     eff = effective(case)
     c = {"retries": int(eff["retries"]), "until": bool(eff["until"]), "onTimeout": bool(eff["onTimeout"]), "onError": bool(eff["onError"]), "wait": _us(eff["wait"])}
     detail = "" if kind != "raised" or of != -1 else "%s: %s" % (type(res).__name__, res)
-    return {"kind": "run", "c": c, "calls": calls, "st": {"k": kind, "of": of if kind != "aborted" else 0}, "t": _us(t_end), "same": bool(same)}, detail
+    if not untouched:
+        detail = (detail + " retry parameters of the caller before the call: %s, after: %s" % (retry_before, retry_after)).strip()
+    return {"kind": "run", "c": c, "calls": calls, "st": {"k": kind, "of": of if kind != "aborted" else 0}, "t": _us(t_end), "same": bool(same), "pu": bool(untouched)}, detail
 
 
 # ---------------------------------------------------------------------------------------------------
@@ -421,11 +445,45 @@ def behaviours_from_sim(ctx, out, cfg_name, num, depth, rnd, src, seed_off):
 WEIGHTED = ["failDict"] * 3 + ["connTimeout"] * 3 + ["connError"] * 3 + ["sockTimeout"] * 3 + ["api408"] * 3 + ["transportOther"] * 2 + ["okDict", "okOther", "apiOther", "otherExc"]
 
 
+def share_params(cases, rnd, prefix):
+    """Turns half of the runs of consecutive cases with the same effective parameters into histories of 2..4 invocations of one
+    task: the members of a history get the same `group` id; they are executed in order on ONE Retry instance with ONE parameter
+    object (the first member's parameters and constructor flag), as the load generator does."""
+    i, gid = 0, 0
+    while i < len(cases):
+        j = i + 1
+        k0 = _key(cases[i])[:5] + (cases[i].get("op"),)
+        limit = rnd.randint(2, 4)
+        while j < len(cases) and j - i < limit and _key(cases[j])[:5] + (cases[j].get("op"),) == k0:
+            j += 1
+        if j - i >= 2 and rnd.random() < 0.5:
+            gid += 1
+            for c in cases[i:j]:
+                c["group"] = "%s%d" % (prefix, gid)
+                c["params"] = dict(cases[i]["params"])
+                c["ctor_until"] = cases[i]["ctor_until"]
+        i = j
+    return cases
+
+
 def random_cases(seed, n, ops=None):
-    """Cases that are NOT derived from TLC: odd parameter values, absent parameters, constructor flag, wider durations."""
+    """Cases that are NOT derived from TLC: odd parameter values, absent parameters, constructor flag, wider durations; half of them
+    come as histories of 2..4 invocations of one task (same parameters, consecutive)."""
     rnd = random.Random(seed)
     cases = []
+    history = 0
     for _ in range(n):
+        if history > 0:
+            # next invocation of the same task: same parameters, new outcomes
+            history -= 1
+            prev = cases[-1]
+            script = []
+            for _i in range(rnd.randint(0, 8)):
+                o = rnd.choice(WEIGHTED) if rnd.random() < 0.85 else rnd.choice(OUTCOMES)
+                script.append([o, rnd.choice([0, 0, 0.125, 0.25, 1, 0.003]), rnd.randrange(N_VARIANTS)])
+            case = dict(prev, params=dict(prev["params"]), script=script)
+            cases.append(case)
+            continue
         p = {}
         if rnd.random() < 0.7:
             p["retries"] = rnd.choice([-1, 0, 0, 1, 1, 2, 3, 5, 8])
@@ -450,8 +508,10 @@ def random_cases(seed, n, ops=None):
             case["op"] = op
             case["ctor_until"] = until
             case["src"] = "registry"
+        if rnd.random() < 0.3:
+            history = rnd.randint(1, 3)
         cases.append(case)
-    return cases
+    return share_params(cases, random.Random(seed + 1), "r")
 
 
 # ---------------------------------------------------------------------------------------------------
@@ -459,8 +519,15 @@ def _doc_retryable(c, o):
     return (o in ("connTimeout", "sockTimeout", "api408", "connError") and c["onTimeout"]) or (o == "failDict" and (c["until"] or c["onError"]))
 
 
-def _signature(item, clauses):
+def _signature(item, clauses, case=None):
     """Describes the kind of failing input: after which outcome classes an attempt followed illegally / without the wait."""
+    sig = _signature0(item, clauses)
+    if case is not None and case.get("before"):
+        sig["later_invocation_with_shared_params"] = True
+    return sig
+
+
+def _signature0(item, clauses):
     c, calls = item["c"], item["calls"]
     trig = set()
     for i in range(len(calls) - 1):
@@ -474,6 +541,7 @@ def _signature(item, clauses):
 
 
 SITUATIONS = {}
+SHARED = {}
 
 
 def _count_situations(item):
@@ -487,8 +555,19 @@ def _count_situations(item):
 def run_cases(cases, out, label, chunk=60000):
     items = []
     index = {}
+    group, shared, before = None, None, []
+    n_shared = 0
     for ci, case in enumerate(cases):
-        item, detail = execute(case)
+        if case.get("group") is not None and case["group"] == group:
+            case = dict(case, before=[list(map(list, b)) for b in before])  # replayable: the earlier invocations of this history
+            n_shared += 1
+        elif case.get("group") is not None:
+            group, shared, before = case["group"], {}, []
+        else:
+            group, shared, before = None, None, []
+        item, detail = execute(case, shared)
+        if group is not None:
+            before.append(case["script"])
         _count_situations(item)
         item["id"] = "%s-%d" % (label, ci)
         items.append(item)
@@ -496,6 +575,7 @@ def run_cases(cases, out, label, chunk=60000):
         out.add_case(_key(case) + (case.get("op"),), nontrivial=len(item["calls"]) >= 2)
     if not items:
         raise tlc.MachineryError("no cases for %s" % label)
+    SHARED["later_invocations"] = SHARED.get("later_invocations", 0) + n_shared
     verdicts = tracecheck.validate("Retry", "TraceRetry", "TraceRetry.cfg", items, name="c16trace", chunk=chunk, timeout=1500)
     out.traces_validated += verdicts.accepted(len(items))
     for tid, fails in verdicts.l1.items():
@@ -505,9 +585,9 @@ def run_cases(cases, out, label, chunk=60000):
             Violation(
                 ",".join(clauses),
                 case,
-                signature=_signature(item, clauses),
-                detail="params=%s ctor_until=%s outcomes=%s -> calls(us)=%s finished=%s at %d us %s"
-                % (case["params"], case["ctor_until"], [s[0] for s in case["script"]], [(c["o"], c["s"], c["e"]) for c in item["calls"]], item["st"], item["t"], detail),
+                signature=_signature(item, clauses, case),
+                detail="params=%s ctor_until=%s%s outcomes=%s -> calls(us)=%s finished=%s at %d us %s"
+                % (case["params"], case["ctor_until"], (" after %d earlier invocation(s) with the same parameter object %s" % (len(case["before"]), [[s[0] for s in b] for b in case["before"]])) if case.get("before") else "", [s[0] for s in case["script"]], [(c["o"], c["s"], c["e"]) for c in item["calls"]], item["st"], item["t"], detail),
             )
         )
     for tid in verdicts.l2:
@@ -558,6 +638,8 @@ def run(ctx, out):
         "time is observed on a virtual-time asyncio loop (asyncio.sleep advances the clock); recorded in microseconds",
         "'returns/raises exactly what that attempt produced' is judged by type and equality (L1); object identity is only required at L2",
         "an absent parameter means its documented default (docs/track.rst, parsed on every run); retry-until-success defaults to the Retry instance's constructor flag",
+        "half of the cases are executed as histories of 2..4 invocations of one task: one Retry instance and ONE parameter dict object for all of them (ParamSource.params() returns "
+        "the same dict for every invocation); every invocation is judged against the parameters the task configured, and must leave the retry parameters it was handed unchanged",
         "retries < 0 is degenerate: 'at most retries + 1 = 0 attempts' is met by returning None without calling the delegate (reported as a note, not as a violation)",
         "'retry exactly as configured' is read as an obligation too: the loop must not give up while a documented retry is configured and attempts remain",
     ]
@@ -578,6 +660,7 @@ def run(ctx, out):
     extra = [c for c in pinned_paths if _key(c) not in seen]
     out.note("leg S2C: %d maximal paths of the repaired model + %d further paths of the pinned model" % (len(cases), len(extra)))
     cases += extra
+    share_params(cases, rnd, "p")
     # ---- simulation over wider alphabets
     nsim = 1500 if quick else 20000
     sims = []
@@ -606,12 +689,16 @@ def run(ctx, out):
         # make sure every retryable operation type is exercised
         for i, (op, until) in enumerate(retryable_ops):
             reg_cases[i]["op"], reg_cases[i]["ctor_until"] = op, until
+            reg_cases[i].pop("group", None)
         items = run_cases(reg_cases, out, "reg")
         out.extra["registered_chains_exercised"] = len({c["op"] for c in reg_cases})
         out.sample({"source": "registry", "op": reg_cases[0]["op"], "params": reg_cases[0]["params"], "script": reg_cases[0]["script"], "recorded": {k: items[0][k] for k in ("c", "calls", "st", "t")}})
     degenerate = sum(1 for c in cases + rnd_cases if effective(c)["retries"] < 0 and not effective(c)["until"])
     out.note("degenerate configuration retries=-1 (no attempt, None returned): %d cases, accepted by the property as stated" % degenerate)
     out.note("leg C2S: %d executions validated by TLC" % out.traces_validated)
+    out.extra["later_invocations_sharing_params_and_runner"] = SHARED.get("later_invocations", 0)
+    if not SHARED.get("later_invocations"):
+        out.vacuous.append("no history of several invocations sharing one parameter object was executed")
     missing = [(o, a, b, last) for o in OUTCOMES for a in (False, True) for b in (False, True) for last in (False, True) if not SITUATIONS.get((o, a, b, last))]
     out.extra["situations_exercised"] = "%d of %d (outcome class x retry-on-timeout x retry-on-error x last attempt or not), least often: %d executions" % (
         80 - len(missing),
@@ -621,11 +708,17 @@ def run(ctx, out):
     if missing:
         out.vacuous.append("situations never exercised on the implementation: %s" % missing[:5])
     # report the smallest failing case of every kind first
-    out.violations.sort(key=lambda v: (len(v.case["script"]), len(repr(v.case)), repr(v.case)))
+    out.violations.sort(key=lambda v: (len(v.case.get("before", [])), len(v.case["script"]), len(repr(v.case)), repr(v.case)))
 
 
 def replay(ctx, case):
-    item, detail = execute(case)
+    shared = None
+    if case.get("before") or case.get("group") is not None:
+        # earlier invocations of the same task: same Retry instance, same parameter object
+        shared = {}
+        for b in case.get("before", []):
+            execute(dict(case, script=b), shared)
+    item, detail = execute(case, shared)
     item["id"] = "replay"
     v = tracecheck.validate("Retry", "TraceRetry", "TraceRetry.cfg", [item], name="c16replay")
     print("params=%s ctor_until=%s script=%s" % (case["params"], case["ctor_until"], case["script"]))
